@@ -261,7 +261,7 @@ class GrammarGen:
 
     def make_leftrec(self):
         rnd = self.rnd
-        shape = rnd.choice(["plain", "two_ops", "base_first", "indirect", "pos", "opt_suffix", "clo_suffix", "indirect_clo"])
+        shape = rnd.choice(["plain", "two_ops", "base_first", "indirect", "pos", "opt_suffix", "clo_suffix", "indirect_clo", "empty_base"])
         dirs = ["@leftrec"]
         if shape == "pos":
             dirs.append("@position")
@@ -277,6 +277,9 @@ class GrammarGen:
             body = ("choice", [("seq", [f("n", False, "Num"), ("neg", ("lit", "+", False))]),
                                ("seq", [f("left", True, "LR"), ("lit", "+", False), f("n", False, "Num")]),
                                ("seq", [f("n", False, "Num")])])
+        elif shape == "empty_base":   # the base alternative can match the empty string
+            body = ("choice", [("seq", [f("left", True, "LR"), ("lit", "+", False), f("n", False, "Num")]),
+                               ("seq", [("opt", ("choice", [("seq", [f("n", False, "Num")])]))])])
         elif shape == "opt_suffix":   # the recursive alternative can match without consuming anything after the reference
             body = ("choice", [("seq", [f("left", True, "LR"), ("opt", ("choice", [("seq", [("lit", "+", False), f("n", False, "Num")])]))]),
                                ("seq", [f("n", False, "Num")])])
